@@ -836,3 +836,20 @@ def loop_first_match(body, adt, field):
                 if exits and back is None:
                     out.append((L, b, other))
     return out
+
+
+def root_origins(prog, root, clo, op):
+    """origins of an operand of closure `clo` expressed in `root` (the function that builds the closure): captured values
+    are replaced by the origins of the captured operands"""
+    out = set()
+    agg = None
+    for b, i, st in root.iter_stmts():
+        if st["k"] == "assign" and "agg" in st["rv"] and st["rv"]["agg"].get("kind") == "closure" and st["rv"]["agg"].get("closure") == clo.path:
+            agg = st["rv"]["agg"]
+    for o in origins(clo, op):
+        if agg is not None and o[0] == "arg" and o[1] == 1 and len(o) >= 3 and o[2].lstrip(".").isdigit() and int(o[2].lstrip(".")) < len(agg["ops"]):
+            for o2 in origins(root, agg["ops"][int(o[2].lstrip("."))]):
+                out.add(tuple(o2) + tuple(x for x in o[3:] if x != "*"))
+        else:
+            out.add(("closure-local",) + tuple(o))
+    return out
